@@ -87,6 +87,14 @@ def token_expressions(w) -> List[Tuple[ast.AugAssign, ast.AST]]:
             for st in ast.walk(lp):
                 if isinstance(st, ast.AugAssign) and isinstance(st.target, ast.Name) and st.target.id == rv and not any(st is x for x, _ in out):
                     out.append((st, inline_sequential(st.value, st)))
+    if not out:
+        # join form: `row = ''.join(<token expr> for line in lines ...)`; helpers defined inside the worker are read through
+        from gxstat.inline import inline_simple_calls
+        local_fns = {n.name: n for n in ast.walk(w.node) if isinstance(n, ast.FunctionDef) and n is not w.node}
+        for st in ast.walk(w.node):
+            if isinstance(st, ast.Assign) and norm(st.targets[0]) == rv and isinstance(st.value, ast.Call) and isinstance(st.value.func, ast.Attribute) \
+                    and st.value.func.attr == 'join' and st.value.args and isinstance(st.value.args[0], (ast.GeneratorExp, ast.ListComp)):
+                out.append((st, inline_simple_calls(st.value.args[0].elt, local_fns)))
     return out
 
 
